@@ -79,6 +79,13 @@ class BaseTranslateFilter:
         # be impossible.
         return message_text % _vars
 
+    @staticmethod
+    def _positional(_filter: Filter) -> list[Expression]:
+        """Positional filter arguments, in the order the filter function gets them."""
+        return [
+            arg.value for arg in _filter.args if isinstance(arg, PositionalArgument)
+        ]
+
     def _resolve_translations(self, context: RenderContext) -> Translations:
         return cast(
             Translations,
@@ -174,10 +181,8 @@ class Translate(BaseTranslateFilter, TranslatableFilter):
                 message=(left.value,),
             )
 
-        if isinstance(_filter.args[0], PositionalArgument):
-            _context: Expression | None = _filter.args[0].value
-        else:
-            _context = None
+        positional = self._positional(_filter)
+        _context: Expression | None = positional[0] if positional else None
 
         plural: Expression | None = None
         for arg in _filter.args:
@@ -301,10 +306,11 @@ class NGetText(BaseTranslateFilter, TranslatableFilter):
         _filter: Filter,
         lineno: int,
     ) -> MessageText | None:
-        if len(_filter.args) < 1:
+        positional = self._positional(_filter)
+        if len(positional) < 1:
             return None
 
-        plural = _filter.args[0].value
+        plural = positional[0]
 
         if not isinstance(left, StringLiteral) or not isinstance(plural, StringLiteral):
             return None
@@ -354,10 +360,11 @@ class PGetText(BaseTranslateFilter, TranslatableFilter):
     def message(  # noqa: D102
         self, left: Expression, _filter: Filter, lineno: int
     ) -> MessageText | None:
-        if len(_filter.args) < 1:
+        positional = self._positional(_filter)
+        if len(positional) < 1:
             return None
 
-        ctx = _filter.args[0].value
+        ctx = positional[0]
 
         if not isinstance(left, StringLiteral) or not isinstance(ctx, StringLiteral):
             return None
@@ -424,11 +431,12 @@ class NPGetText(BaseTranslateFilter, TranslatableFilter):
         _filter: Filter,
         lineno: int,
     ) -> MessageText | None:
-        if len(_filter.args) < 2:  # noqa: PLR2004
+        positional = self._positional(_filter)
+        if len(positional) < 2:  # noqa: PLR2004
             return None
 
-        ctx = _filter.args[0].value
-        plural = _filter.args[1].value
+        ctx = positional[0]
+        plural = positional[1]
 
         if (
             not isinstance(left, StringLiteral)
